@@ -1416,6 +1416,9 @@ class Interp:
             b = self.clamp(hi, n, n)
             b = simp(z3.If(to_z3(b) < to_z3(a), to_z3(a), to_z3(b)))
             return VSeq(simp(b - a), lambda i, _a=a: o.elem(simp(_a + i)), o.name + '[:]')
+        if isinstance(o, VStr):
+            f = z3.Function('substr', I, I, I, I)
+            return VStr(f(o.ident, to_z3(lo if lo is not None else 0), to_z3(hi if hi is not None else -1)), 'substr')
         if isinstance(o, (bytes, str, tuple, list)) and (lo is None or isinstance(lo, int)) and (hi is None or isinstance(hi, int)):
             r = o[lo:hi]
             return VBytes.lit(r) if isinstance(r, bytes) else r
